@@ -326,30 +326,25 @@ def tmpl_many_rings(ch, big=True):
     return toks
 
 
+def tower_tokens(d, atom="[C]", branch=""):
+    """d nested live branches: every branch holds one atom and then the next branch, so each level is a new
+    derivation instance (one recursion level in a recursive implementation). Built inside-out so that
+    every branch's Q is exactly the length of its content - 1 (clipped to 16^3 - 1 for very deep towers)."""
+    content = [atom]
+    for _ in range(d - 1):
+        q = len(content) - 1
+        L = 1 if q < 16 else (2 if q < 256 else 3)
+        content = [atom, "[%sBranch%d]" % (branch, L)] + digits_for(q, L) + content
+    q = len(content) - 1
+    L = 1 if q < 16 else (2 if q < 256 else 3)
+    return [atom, "[%sBranch%d]" % (branch, L)] + digits_for(q, L) + content
+
+
 def tmpl_tower(ch, max_depth=200):
-    """tower of d nested branches, each branch symbol the first symbol of the previous branch"""
     d = ch.weighted([(4, ch.int(1, 12)), (2, ch.int(12, 60)), (1, ch.int(60, max_depth))])
-    centre = ch.pick(["[S]", "[P]", "[C]", "[Xe-2]", "[Fe]"])
-    style = ch.pick(["first_symbol", "chain"])
-    toks = [centre]
-    if style == "first_symbol":
-        # [X][B][q][B][q]...  every nested branch is rooted at the same atom and needs state > 1
-        for i in range(d):
-            rest = 2 * (d - i - 1) + 1
-            L = 1 if rest < 16 else (2 if rest < 256 else 3)
-            toks.append("[Branch%d]" % L)
-            toks += digits_for(rest + L - 1 + (2 if L > 1 else 0), L)
-        toks.append("[F]")
-    else:
-        # [C][B][q][C][B][q][C]... each branch contains an atom and then another branch
-        for i in range(d):
-            rest = 4 * (d - i - 1) + 2
-            L = 1 if rest < 16 else (2 if rest < 256 else 3)
-            toks.append("[Branch%d]" % L)
-            toks += digits_for(rest + 2 * (L - 1) + 6, L)
-            toks.append(centre if i % 2 else "[C]")
-        toks += ["[F]"] * 2
-    return toks + ["[C]"] * ch.int(0, 3)
+    atom = ch.pick(["[C]", "[S]", "[P]", "[N]", "[=C]", "[Xe-2]"])
+    toks = tower_tokens(d, atom, ch.pick(["", "", "=", "#"]))
+    return toks + [ch.pick(["[F]", "[C]", "[=O]"])] * ch.int(0, 3)
 
 
 def tmpl_comb(ch):
